@@ -201,6 +201,7 @@ func runCase(c *Case) (*exec, bool) {
 						r.kind = "invoke-panic:" + fmt.Sprint(p)
 					}
 				}()
+				e.free.Handler("h.invoke", i)
 				v, err := f.Invoke(ctx, i)
 				r.val, r.kind = v, errKind(err)
 			}()
@@ -225,6 +226,50 @@ func runCase(c *Case) (*exec, bool) {
 		cf()
 	}
 	return e, all
+}
+
+// staleCancel reports whether caller i, whose own context was never cancelled, entered Invoke only after
+// every caller whose context was cancelled had already returned: then no batch i can belong to is still
+// being cancelled, and a context error for i comes from a dead group left published.
+func (e *exec) staleCancel(i int) (bool, []int) {
+	evs := e.free.Snapshot()
+	invoke, cancelled, returned := -1, map[int]int{}, map[int]int{}
+	for _, ev := range evs {
+		if len(ev.Args) == 0 {
+			continue
+		}
+		who, ok := ev.Args[0].(int)
+		if !ok {
+			continue
+		}
+		switch ev.Point {
+		case "h.invoke":
+			if who == i {
+				invoke = ev.Seq
+			}
+		case "h.cancel":
+			if _, dup := cancelled[who]; !dup {
+				cancelled[who] = ev.Seq
+			}
+		case "h.return":
+			returned[who] = ev.Seq
+		}
+	}
+	if invoke < 0 || len(cancelled) == 0 {
+		return false, nil
+	}
+	if _, own := cancelled[i]; own {
+		return false, nil
+	}
+	var who []int
+	for j := range cancelled {
+		r, ok := returned[j]
+		if !ok || r > invoke {
+			return false, nil
+		}
+		who = append(who, j)
+	}
+	return true, who
 }
 
 // ---- oracle: the property evaluated on what callers got and what Many saw ----
@@ -279,6 +324,9 @@ func oracle(e *exec, all bool) []failure {
 		case r.kind == "ctx":
 			if len(calls) != 0 {
 				add("cancelled-but-fetched", "Invoke(%d) returned the context error although Many saw its argument", i)
+			}
+			if stale, who := e.staleCancel(i); stale {
+				add("context-error-from-finished-cancelled-batch", "Invoke(%d) started after every cancelled caller (%v) had returned, its own context is live, yet it got the context error and its argument was never fetched", i, who)
 			}
 			if !anyCancel {
 				add("context-error-without-cancellation", "Invoke(%d)", i)
@@ -544,7 +592,21 @@ func genCase(r *vh.Rng) *Case {
 func genScript(r *vh.Rng) *Case {
 	c := genCase(r)
 	c.Holds, c.Cancels = nil, nil
-	switch r.Intn(3) {
+	switch r.Intn(4) {
+	case 3:
+		// (d) the creator's own context is cancelled while its group waits for a trigger; callers on live
+		// sibling contexts arrive afterwards and must get a fresh group, not the dead one
+		c.Origin = "script:late-join-after-cancelled-creator"
+		c.Callers = 3 + r.Intn(5)
+		c.MaxSize = []int{0, 0, 4}[r.Intn(3)]
+		c.Shards, c.NilShard, c.WaitUs, c.MaxDurUs, c.Limit = 1, false, 2000, 5000, 0
+		c.Outcomes = []string{"ok"}
+		c.DelaysUs = make([]int, c.Callers)
+		for i := range c.DelaysUs {
+			c.DelaysUs[i] = i * (300 + r.Intn(300))
+		}
+		c.Cancels = []Cancel{{Caller: 0, Point: "batch.join", Nth: 1}}
+		return c
 	case 0:
 		c.Origin = "script:join-after-wake"
 		c.Callers = 3 + r.Intn(8)
